@@ -5,7 +5,7 @@ import Drv.Filters
 /-!
 Driver ops of the predicate engine (C02):
 
-* `c02 <asis|fixed> <pred> <hex arg> (sites <site>…)` → `err` (the loader rejects the argument) or one
+* `c02 <asis|fixed|repaired> <pred> <hex arg> (sites <site>…)` → `err` (the loader rejects the argument) or one
   verdict letter per site (`t`, `f`, panic letters as in `c17`, `?` where the site has no oracle answer)
 * `spec02 <pred> <hex arg> (sites <site>…) <verdict letters>` → `holds:<n>` | `wrong:<site>:<want>:<got>` | `na`
 * `gover <asis> <tok> <tmajor> <tminor> <hex version>` → `err` | `t` | `f`;  `specgover <tok> <tmajor> <tminor> <major> <minor> <t|f>`
@@ -17,7 +17,7 @@ node/parent = `-` | `(<tag> <isExpr> <isStmt>)`; curfunc = `none` | `notfunc` | 
 oracle = `-` | `(<onSubNode> <onSubExpr> -|(<elem>…))`;
 ex = `(star x) (bin x y) (un <0|1> x) (lit <0|1>) (id obj) (flit) (idx x i) (sel x obj) (par x)
 (comp <isSlice> (<const>…) x…) (call <funIsByteSlice> fn x…) (tlit) (kv k v) (slc x i…) (ta x) (oth)`;
-obj = `-` | `<kind>:<parentIsPkgScope>:<lastParamOfDecl>:<variadicParam>`;
+obj = `-` | `<kind>:<parentIsPkgScope>:<lastParamOfDecl>:<variadicParam>:<variadicOfLit>`;
 ty = `(b kind info) (n under) (a actual) (st f…) (ar e) (tp) (o)`.
 -/
 namespace Drv.Preds
@@ -34,10 +34,10 @@ def parseObjKind (s : String) : Option ObjKind :=
 def parseObj (s : String) : Option (Option Obj) :=
   if s == "-" then some none else
   match s.splitOn ":" with
-  | [k, g, lp, vp] => do
+  | [k, g, lp, vp, vl] => do
     let kind ← parseObjKind k
-    let g ← bit g; let lp ← bit lp; let vp ← bit vp
-    pure (some { kind, parentIsPkgScope := g, lastParamOfDecl := lp, variadicParam := vp })
+    let g ← bit g; let lp ← bit lp; let vp ← bit vp; let vl ← bit vl
+    pure (some { kind, parentIsPkgScope := g, lastParamOfDecl := lp, variadicParam := vp, variadicOfLit := vl })
   | _ => none
 
 partial def parseTy : SExp → Option Ty
@@ -72,32 +72,20 @@ partial def parseEx : SExp → Option Ex
   | .list [.atom "oth"] => some .other
   | _ => none
 
-/-- a capture: the expression view and the type view (`typeofNode(subExpr)`; for a list, per element) -/
-structure CapF where
-  ex : ExCap
-  ty : Ty                 -- type of `subExpr` (invalid for a list)
-  elemTys : List Ty       -- for a list
-
-structure Site where
-  cap : CapF
-  node : Option NodeF
-  parent : Option NodeF
-  cf : CurFunc
-  oracle : Option Oracle
-
 def parseNodeF : SExp → Option (Option NodeF)
   | .atom "-" => some none
   | .list [.atom tag, .atom e, .atom s] => do pure (some { tag, isExpr := (← bit e), isStmt := (← bit s) })
   | _ => none
 
-def parseCap : SExp → Option CapF
-  | .list [.atom "one", .atom "-", ty] => do pure { ex := .one none, ty := (← parseTy ty), elemTys := [] }
-  | .list [.atom "one", ex, ty] => do pure { ex := .one (some (← parseEx ex)), ty := (← parseTy ty), elemTys := [] }
+/-- a capture: the expression view and the type view (`typeofNode(subExpr)`; for a list, per element) -/
+def parseCap : SExp → Option (ExCap × TyCap)
+  | .list [.atom "one", .atom "-", ty] => do pure (.one none, .one (← parseTy ty))
+  | .list [.atom "one", ex, ty] => do pure (.one (some (← parseEx ex)), .one (← parseTy ty))
   | .list (.atom "list" :: es) => do
     let ps ← es.mapM fun (e : SExp) => match e with
       | SExp.list [ex, ty] => do pure ((← parseEx ex), (← parseTy ty))
       | _ => none
-    pure { ex := .list (ps.map (·.1)), ty := invalidTy, elemTys := ps.map (·.2) }
+    pure (.list (ps.map (·.1)), .list (ps.map (·.2)))
   | _ => none
 
 def parseOracle : SExp → Option (Option Oracle)
@@ -117,7 +105,8 @@ def parseCF : SExp → Option CurFunc
 
 def parseSite : SExp → Option Site
   | .list [.atom "s", cap, node, parent, cf, orc] => do
-    pure { cap := (← parseCap cap), node := (← parseNodeF node), parent := (← parseNodeF parent),
+    let (ex, ty) ← parseCap cap
+    pure { ex, ty, node := (← parseNodeF node), parent := (← parseNodeF parent),
            cf := (← parseCF cf), oracle := (← parseOracle orc) }
   | _ => none
 
@@ -130,54 +119,27 @@ def relOf (s : String) : Option Rel :=
   | "addressable" => some .addressable | "const" => some .const
   | _ => none
 
-/-- the model's verdict of a predicate at a site; outer `none`: malformed request; inner `none`: load error -/
-def evalPred (fixed : Bool) (pred arg : String) : Option (Option (Site → Option (Res Bool))) :=
-  let okB (f : Site → Bool) : Option (Option (Site → Option (Res Bool))) := some (some fun s => some (.ok (f s)))
+/-- the predicate a request names; `none`: malformed request -/
+def parsePred (pred arg : String) : Option Pred :=
   match pred with
-  | "ofkind:0" | "ofkind:1" =>
-    match ofKind fixed (pred == "ofkind:1") arg with
-    | none => some none
-    | some f => okB fun s => f s.cap.ty
-  | "haspointers" => okB fun s => typeHasPointers fixed s.cap.ty
-  | "pure" => okB fun s => exprFilter pureOpt s.cap.ex
-  | "constslice" => okB fun s => exprFilter constSliceOpt s.cap.ex
-  | "objectis" =>
-    if arg == "" then some none else
-    match parseObjKind arg with
-    | none => some none
-    | some k => okB fun s => exprFilter (objectIs k) s.cap.ex
-  | "isglobal" => some (some fun s => some (objectIsGlobal fixed s.cap.ex.subExpr))
-  | "isvariadic" => okB fun s => objectIsVariadicParam s.cf s.cap.ex.subExpr
-  | "nodeis:v1" => okB fun s => nodeIs s.node arg        -- `v1`: nodetag.FromString(arg) != Unknown (oracle)
-  | "parentis:v1" => okB fun s => nodeIs s.parent arg
-  | "nodeis:v0" | "parentis:v0" => some none
-  | _ =>
-    match relOf pred with
-    | some r => some (some fun s => s.oracle.map fun o => .ok (relFilter r o))
-    | none => none
+  | "ofkind:0" => some (.ofKind false arg)
+  | "ofkind:1" => some (.ofKind true arg)
+  | "haspointers" => some .hasPointers
+  | "pure" => some .pure
+  | "constslice" => some .constSlice
+  | "objectis" => some (.objectIs arg)
+  | "isglobal" => some .isGlobal
+  | "isvariadic" => some .isVariadic
+  | "nodeis:v1" => some (.nodeIs true arg)        -- `v1`: nodetag.FromString(arg) != Unknown (oracle)
+  | "nodeis:v0" => some (.nodeIs false arg)
+  | "parentis:v1" => some (.parentIs true arg)
+  | "parentis:v0" => some (.parentIs false arg)
+  | _ => (relOf pred).map .rel
 
-/-- what the property prescribes; `none`: the property does not constrain this predicate/argument -/
-def specPred (pred arg : String) : Option (Site → Option Bool) :=
-  match pred with
-  | "ofkind:0" | "ofkind:1" =>
-    some fun s => match s.cap.ex with
-      | .one _ => SpecC02.ofKind (pred == "ofkind:1") arg s.cap.ty
-      | .list _ => (s.cap.elemTys.mapM (SpecC02.ofKind (pred == "ofkind:1") arg)).map (·.all id)
-  | "haspointers" =>
-    some fun s => match s.cap.ex with
-      | .one _ => some (SpecC02.containsPointer s.cap.ty)
-      | .list _ => some (s.cap.elemTys.all SpecC02.containsPointer)
-  | "pure" => some fun s => some (SpecC02.onCap SpecC02.pureOpt s.cap.ex)
-  | "constslice" => some fun s => some (SpecC02.onCap SpecC02.constSliceOpt s.cap.ex)
-  | "objectis" => (parseObjKind arg).map fun k => fun s => some (SpecC02.onCap (SpecC02.objectIs k) s.cap.ex)
-  | "isglobal" => some fun s => some (SpecC02.onCap SpecC02.objectIsGlobal s.cap.ex)
-  | "isvariadic" => some fun s => some (SpecC02.onCap SpecC02.objectIsVariadicParam s.cap.ex)
-  | "nodeis:v1" => some fun s => some (SpecC02.nodeIs s.node arg)
-  | "parentis:v1" => some fun s => some (SpecC02.nodeIs s.parent arg)
-  | _ =>
-    match relOf pred with
-    | some _ => some fun s => s.oracle.map SpecC02.relHolds
-    | none => none
+def parseVariant (s : String) : Option Variant :=
+  match s with
+  | "asis" => some .asis | "fixed" => some .fixed | "repaired" => some .repaired
+  | _ => none
 
 def parseSites : SExp → Option (List Site)
   | .list (.atom "sites" :: ss) => ss.mapM parseSite
@@ -192,10 +154,10 @@ def argString (h : String) : Option String := (bytesOfHex h).bind fun b => Strin
 
 def handle : List String → Option String
   | "c02" :: variant :: pred :: arg :: rest => do
-    let fixed ← if variant == "fixed" then some true else if variant == "asis" then some false else none
+    let v ← parseVariant variant
     let arg ← argString arg
     let sites ← (parseSExp (" ".intercalate rest)).bind parseSites
-    match ← evalPred fixed pred arg with
+    match evalPred v (← parsePred pred arg) with
     | none => pure "err"
     | some f =>
       -- `?`: the site carries no oracle answer for this relation (not compared)
@@ -209,9 +171,11 @@ def handle : List String → Option String
       let sites ← parseSites sites
       let got ← (if vs == "-" then some [] else vs.toList.mapM Drv.Filters.verdictOfLetter)
       if got.length ≠ sites.length then none else
-      match specPred pred arg with
-      | none => pure "na"
-      | some sp => Id.run do
+      let p ← parsePred pred arg
+      let sp := SpecC02.specPred p
+      -- `na`: the property does not constrain this predicate/argument (at any site)
+      if sites.all (fun s => (sp s).isNone) && !sites.isEmpty then pure "na" else
+      Id.run do
         let mut n := 0
         let mut i := 0
         for (s, g) in sites.zip got do
